@@ -24,6 +24,6 @@ For each change i in (1, 2) deliver, in {wt}/seed_out/m<i>/ :
   - demo.py : a small standalone program that exits 0 on the unmodified code and exits non-zero (with a short message) with the change applied, demonstrating the property violation through the public API (it must be run as `cd <tree> && PYTHONPATH=<tree> /venv/bin/python demo.py`; do not hard-code the worktree path inside it: use the taurex that is importable). Build any inputs it needs in memory (there are no opacity data files in the sandbox; subclass the public classes or write small temp files).
   - meta.json : {{"property": "{pid}", "summary": "...", "needs_to_manifest": "... what specific input/sequence/config is needed ...", "files_changed": [...], "suite": "what you ran and the result"}}
 
-Procedure: (1) read the relevant code; (2) for each change: edit, write demo.py, confirm demo fails with the change and passes without (`git stash` / `git checkout -- taurex`), and confirm the existing tests that touch the changed files still pass, then run the stable test-suite command once per change: `cd {wt} && PYTHONPATH={wt} /venv/bin/python -m pytest -q -p no:cacheprovider --timeout=900 --continue-on-collection-errors -x -q tests 2>&1 | tail -15` is too strict (some tests fail on the unmodified tree already: tests/test_modelload.py, tests/spectrum, tests/util/test_util.py, tests/stellar/test_phoenix.py, tests/temperature/test_npoint.py, tests/test_pressure.py::test_simple_pressure, and the factory keyword tests are flaky) — so instead run without -x and compare the set of failing tests with the unmodified tree's failures (run the suite once on the unmodified tree first to get the baseline failures; it takes about 4-5 minutes). A change is acceptable only if it introduces NO new failing test. (3) leave the worktree with taurex/ restored to HEAD (`git checkout -- taurex`) and the deliverables in seed_out/.
+Procedure: (1) read the relevant code; (2) for each change: edit, write demo.py, confirm demo fails with the change and passes without (use `git diff > /tmp/x.diff; git checkout -- taurex; ...; git apply /tmp/x.diff` -- do NOT use `git stash`: the stash is shared between all worktrees of this repository and other agents are working in sibling worktrees), and confirm the existing tests that touch the changed files still pass, then run the stable test-suite command once per change: `cd {wt} && PYTHONPATH={wt} /venv/bin/python -m pytest -q -p no:cacheprovider --timeout=900 --continue-on-collection-errors -x -q tests 2>&1 | tail -15` is too strict (some tests fail on the unmodified tree already: tests/test_modelload.py, tests/spectrum, tests/util/test_util.py, tests/stellar/test_phoenix.py, tests/temperature/test_npoint.py, tests/test_pressure.py::test_simple_pressure, and the factory keyword tests are flaky) — so instead run without -x and compare the set of failing tests with the unmodified tree's failures (run the suite once on the unmodified tree first to get the baseline failures; it takes about 4-5 minutes). A change is acceptable only if it introduces NO new failing test. (3) leave the worktree with taurex/ restored to HEAD (`git checkout -- taurex`) and the deliverables in seed_out/.
 
 Finish with a short report: for each change the one-line summary, what is needed to trigger it, and the pytest outcome. Do not commit anything.""")
